@@ -322,7 +322,9 @@ func (dec *Decoder) LastReferenceIndex() int {
 
 // ReadReference to p.
 func (dec *Decoder) ReadReference(p interface{}) {
-	dec.convertReference(dec.refer.Read(dec.ReadInt()), p)
+	if o, ok := dec.readReferred(); ok {
+		dec.convertReference(o, p)
+	}
 }
 
 func (dec *Decoder) convertReference(o interface{}, p interface{}) {
